@@ -57,6 +57,8 @@ pub struct Local {
     pub evaluations: u64,
     pub impl_checked: u64,
     pub nontrivial: HashSet<u64>,
+    /// non-trivial distinct cases counted elsewhere (child processes over disjoint sub-spaces)
+    pub nontrivial_extra: u64,
     pub counters: BTreeMap<String, u64>,
     pub samples: Vec<Json>,
     pub viols: Vec<Viol>,
@@ -131,6 +133,7 @@ impl Report {
         g.impl_checked += l.impl_checked;
         g.max_depth = g.max_depth.max(l.max_depth);
         g.nontrivial.extend(l.nontrivial);
+        g.nontrivial_extra += l.nontrivial_extra;
         for (k, v) in l.counters {
             *g.counters.entry(k).or_insert(0) += v;
         }
@@ -308,7 +311,7 @@ pub fn finish(rep: &Report, min_states: u64, recheck: &dyn Fn(&str, &Viol) -> Op
             "transitions": l.transitions,
             "traces_validated_against_impl": l.impl_checked,
             "evaluations": l.evaluations,
-            "distinct_nontrivial": l.nontrivial.len(),
+            "distinct_nontrivial": l.nontrivial.len() as u64 + l.nontrivial_extra,
             "rule": rep.rule.lock().unwrap().clone(),
             "samples": samples,
             "exhaustive": *rep.exhaustive.lock().unwrap(),
@@ -335,7 +338,7 @@ pub fn finish(rep: &Report, min_states: u64, recheck: &dyn Fn(&str, &Viol) -> Op
         l.transitions,
         l.evaluations,
         l.impl_checked,
-        l.nontrivial.len(),
+        l.nontrivial.len() as u64 + l.nontrivial_extra,
         wall
     );
     for (k, v) in &l.counters {
